@@ -2744,6 +2744,63 @@ theorem createOut_shape {codes' : List (Nat × List Nat)} : LocalShape cs (creat
     | shape_leaf
     | exact createGoV_shape (cs := { cs with nonce := cs.nonce + 1 }) (codes := codes')
 
+/-- the mapping access `stepC` decodes itself, if the instruction is one -/
+def hstoPick (s : Simp) (o : Oracle) (cfg : Cfg) (cs : CState) : Option LocalOut :=
+  if cs.st.stack.length > 1024 then none
+  else if isStoOp (opAt cs.code cs.st.pc) then hstoOut s o cfg cs (opAt cs.code cs.st.pc) else none
+
+theorem hstoOut_off (hnh : cfg.hsto = false) {op : Nat} : hstoOut s o cfg cs op = none := by
+  simp [hstoOut, hnh]
+
+theorem hstoPick_off (hnh : cfg.hsto = false) : hstoPick s o cfg cs = none := by
+  unfold hstoPick; rw [hstoOut_off hnh]; simp
+
+/-- a mapping access extends the path by the emptiness condition (a load) or not at all -/
+theorem hstoOut_shape {op : Nat} {lo : LocalOut} (h : hstoOut s o cfg cs op = some lo) : LocalShape cs lo := by
+  unfold hstoOut at h
+  simp only at h
+  split at h
+  · cases h
+  · split at h
+    · split at h
+      · split at h
+        · simp only [Option.some.injEq] at h
+          subst h
+          exact localShape_next (addCond_path_ext s _ _) (Or.inl rfl)
+        · cases h
+      · cases h
+    · split at h
+      · split at h
+        · split at h
+          · simp only [Option.some.injEq] at h; subst h; exact localShape_end rfl
+          · split at h
+            · simp only [Option.some.injEq] at h; subst h
+              exact localShape_next ⟨[], (List.append_nil _).symm⟩ (Or.inl rfl)
+            · simp only [Option.some.injEq] at h; subst h; exact localShape_end rfl
+        · cases h
+      · cases h
+
+theorem hstoOut_cr {op : Nat} {lo : LocalOut} (h : hstoOut s o cfg cs op = some lo) : LocalCr cs lo := by
+  unfold hstoOut at h
+  simp only at h
+  split at h
+  · cases h
+  · split at h
+    · split at h
+      · split at h
+        · simp only [Option.some.injEq] at h; subst h; exact localCr_next ⟨rfl, rfl, Or.inl rfl⟩
+        · cases h
+      · cases h
+    · split at h
+      · split at h
+        · split at h
+          · simp only [Option.some.injEq] at h; subst h; exact localCr_end
+          · split at h
+            · simp only [Option.some.injEq] at h; subst h; exact localCr_next ⟨rfl, rfl, Or.inl rfl⟩
+            · simp only [Option.some.injEq] at h; subst h; exact localCr_end
+        · cases h
+      · cases h
+
 /-- `stepC` is `finish` of an instruction it decodes itself, or of the per-frame step (with its stack limit) -/
 theorem stepC_eq :
     stepC s o cfg codes cs =
@@ -2759,12 +2816,16 @@ theorem stepC_eq :
         finish cs (logOut s cfg cs (opAt cs.code cs.st.pc))
       else if ¬ cs.st.stack.length > 1024 ∧ isExtOp (opAt cs.code cs.st.pc) = true then
         finish cs (extOut s cfg (codesOf cfg codes cs) cs (opAt cs.code cs.st.pc))
-      else finish cs (liftOut cs (stepL s o cfg cs.env cs.code cs.st)) := by
-  unfold stepC stepL
+      else
+        match hstoPick s o cfg cs with
+        | some lo => finish cs lo
+        | none => finish cs (liftOut cs (stepL s o cfg cs.env cs.code cs.st)) := by
+  unfold stepC stepL hstoPick
   simp only
   by_cases hl : cs.st.stack.length > 1024
   · simp only [hl, if_true, not_true_eq_false, false_and, if_false]; rfl
   · simp only [hl, if_false, not_false_eq_true, true_and]
+    rfl
 
 /-- the local output `stepC` finishes, with its shape -/
 theorem stepC_local : ∃ lo, stepC s o cfg codes cs = finish cs lo ∧ LocalShape cs lo := by
@@ -2781,9 +2842,19 @@ theorem stepC_local : ∃ lo, stepC s o cfg codes cs = finish cs lo ∧ LocalSha
         · exact ⟨_, rfl, logOut_shape⟩
         · split
           · exact ⟨_, rfl, extOut_shape o⟩
-          · refine ⟨_, rfl, fun c hc => ?_, fun e he => stepL_end_path he⟩
-            obtain ⟨st', hm', rfl⟩ := List.mem_map.1 hc
-            exact ⟨stepL_next_path hm', Or.inl rfl⟩
+          · cases hp : hstoPick s o cfg cs with
+            | some lo =>
+              refine ⟨lo, rfl, hstoOut_shape (s := s) (o := o) (cfg := cfg) (op := opAt cs.code cs.st.pc) ?_⟩
+              unfold hstoPick at hp
+              split at hp
+              · cases hp
+              · split at hp
+                · exact hp
+                · cases hp
+            | none =>
+              refine ⟨_, rfl, fun c hc => ?_, fun e he => stepL_end_path he⟩
+              obtain ⟨st', hm', rfl⟩ := List.mem_map.1 hc
+              exact ⟨stepL_next_path hm', Or.inl rfl⟩
 
 theorem stepC_next_path {cs' : CState}
     (h : cs' ∈ (stepC s o cfg codes cs).next) :
@@ -3153,7 +3224,7 @@ theorem stepC_sound (hs : SimpSound s) (hI : I.Std) (hmem : cfg.maxMem + 32 ≤ 
     (hS : ∀ a prog, codeOf codes a = some prog → S a)
     (hcb : ∀ a prog, codeOf codes a = some prog → ∀ b ∈ prog, b < 256)
     (hob : cfg.balances = true → OracleSound o ∧ BalHyp I cfg w0)
-    (hsi : cfg.sha3 = true → ShaInterp I p cfg) (hch : CreateHyp cfg p S w0)
+    (hsi : cfg.sha3 = true → ShaInterp I p cfg) (hch : CreateHyp cfg p S w0) (hnh : cfg.hsto = false)
     (hrel : RelC I p S w0 cs w f kcs) (hsat : Sat I cs.st.path) :
     (∀ cs' ∈ (stepC s o cfg codes cs).next, Sat I cs'.st.path → ∃ w' f' kcs', RelC I p S w0 cs' w' f' kcs' ∧
         ∀ r, RunStack p w' f' kcs' r → RunStack p w f kcs r) ∧
@@ -3161,7 +3232,7 @@ theorem stepC_sound (hs : SimpSound s) (hI : I.Std) (hmem : cfg.maxMem + 32 ≤ 
         ∃ w', RunStack p w f kcs (w', haltWith h (ce.e.data.map (·.eval I))) ∧
           WRelM I S (wd w0 ce.created ce.nonce) w' (stoOf ce.stores) (evalLogs I ce.logs) (balSem I w0 ce.bal)) := by
   obtain ⟨hcodes', hS', hcb'⟩ := dyn_codes (cfg := cfg) hcodes hS hcb hrel
-  rw [stepC_eq]
+  rw [stepC_eq, hstoPick_off hnh]
   split
   · rename_i hc
     have hop : opAt cs.code cs.st.pc = 0xf0 := (isCreateOp_iff _).1 hc.2
@@ -3228,7 +3299,7 @@ theorem stepC_complete (hs : SimpSound s) (ho : OracleSound o) (hI : I.Std) (hme
     (hS : ∀ a prog, codeOf codes a = some prog → S a)
     (hcb : ∀ a prog, codeOf codes a = some prog → ∀ b ∈ prog, b < 256)
     (hb : cfg.balances = true → BalHyp I cfg w0)
-    (hsi : cfg.sha3 = true → ShaInterp I p cfg) (hsok : ShaOK I s cfg cs) (hch : CreateHyp cfg p S w0)
+    (hsi : cfg.sha3 = true → ShaInterp I p cfg) (hsok : ShaOK I s cfg cs) (hch : CreateHyp cfg p S w0) (hnh : cfg.hsto = false)
     (hrel : RelC I p S w0 cs w f kcs) (hsat : Sat I cs.st.path) {r : Evm.World × Evm.Halt}
     (hrun : RunStack p w f kcs r) (hbb : BBAll (cfg.balances = true) w kcs) :
     (∃ cs' ∈ (stepC s o cfg codes cs).next, Sat I cs'.st.path ∧ ∃ w' f' kcs', RelC I p S w0 cs' w' f' kcs' ∧
@@ -3236,7 +3307,7 @@ theorem stepC_complete (hs : SimpSound s) (ho : OracleSound o) (hI : I.Std) (hme
     (∃ ce ∈ (stepC s o cfg codes cs).ends, EndCoversC I S w0 r ce) ∨
     (stepC s o cfg codes cs).bounded ≠ [] := by
   obtain ⟨hcodes', hS', hcb'⟩ := dyn_codes (cfg := cfg) hcodes hS hcb hrel
-  rw [stepC_eq]
+  rw [stepC_eq, hstoPick_off hnh]
   split
   · rename_i hc
     have hop : opAt cs.code cs.st.pc = 0xf0 := (isCreateOp_iff _).1 hc.2
